@@ -301,11 +301,11 @@ J('bitdec.BitsDecoded.contract', 'h_enf_BitDecoder_BitsDecoded', ['C17', 'C02'],
 J('bitdec.reset.contract', 'h_enf_BitDecoder_reset', ['C17', 'C02'], enforce='BitDecoder_reset')
 J('bitdec.EnsureBits.contract', 'h_enf_BitDecoder_EnsureBits', ['C17', 'C02'], enforce='BitDecoder_EnsureBits', replace=['BitDecoder_PeekBit'], loops=True, ignore=[SHL31])
 J('control.ghosts', 'h_ghost_control', ['C17', 'C02', 'C05', 'C06', 'C18'], expect_fail=[r'control\.ghosts_are_zero'], no_vacuity=True)
-J('decbuf.DecodeBytes.contract', 'h_enf_DecoderBuffer_DecodeBytes', ['C17', 'C02'], enforce='DecoderBuffer_DecodeBytes')
+J('decbuf.DecodeBytes.contract', 'h_enf_DecoderBuffer_DecodeBytes', ['C17', 'C02', 'C06'], enforce='DecoderBuffer_DecodeBytes')
 J('decbuf.PeekBytes.contract', 'h_enf_DecoderBuffer_PeekBytes', ['C17', 'C02'], enforce='DecoderBuffer_PeekBytes')
-J('decbuf.StartBitDecoding.contract', 'h_enf_DecoderBuffer_StartBitDecoding', ['C17', 'C02', 'C05'], enforce='DecoderBuffer_StartBitDecoding',
+J('decbuf.StartBitDecoding.contract', 'h_enf_DecoderBuffer_StartBitDecoding', ['C17', 'C02', 'C05', 'C06'], enforce='DecoderBuffer_StartBitDecoding',
   replace=['DecoderBuffer_Decode_u64', 'DecodeVarint_u64', 'BitDecoder_reset'])
-J('decbuf.EndBitDecoding.contract', 'h_enf_DecoderBuffer_EndBitDecoding', ['C17', 'C02'], enforce='DecoderBuffer_EndBitDecoding', replace=['BitDecoder_BitsDecoded'])
+J('decbuf.EndBitDecoding.contract', 'h_enf_DecoderBuffer_EndBitDecoding', ['C17', 'C02', 'C06'], enforce='DecoderBuffer_EndBitDecoding', replace=['BitDecoder_BitsDecoded'])
 J('decbuf.DecodeLeastSignificantBits32.contract', 'h_enf_DecoderBuffer_DecodeLeastSignificantBits32', ['C17', 'C02'], enforce='DecoderBuffer_DecodeLeastSignificantBits32', replace=['BitDecoder_GetBits'])
 J('bits.rt', 'h_bits_rt', ['C17', 'C06'], unwind=34, unwind_reason='PutBits/GetBits loops run nbits <= 32 times; unwinding assertions on', native=True, ignore=[SHL31])
 for sfx in ['u8', 'u16', 'u32', 'u64', 'i8', 'i16', 'i32', 'i64']:
